@@ -106,7 +106,7 @@ def _worker(args):
     with open(minp, "wb") as f:
         f.write(meta)
     recs = []
-    full = all_supplied() if tier == "thorough" else None
+    full = None
     for mi, (made, populate) in enumerate(mades):
         tdir = os.path.join(base, "t%d" % mi)
         troot = os.path.join(tdir, "store")
@@ -120,7 +120,7 @@ def _worker(args):
         wdir = os.path.join(base, "w%d" % mi)
         wroot = os.path.join(wdir, "store")
         shutil.copytree(tdir, wdir)
-        attempts = full if full is not None else neighbours(made, rnd, 40)
+        attempts = neighbours(made, rnd, 40 if tier == "quick" else 400)
         for s in attempts:
             accepted, raised, fs, store = _attempt(fhs, wroot, s)
             visible = True
